@@ -1,7 +1,6 @@
 (* C08: the buffer-level model of bufio.Scanner ([read_csv]: what the harness runs against the
    implementation) delivers exactly the events of the splitter run over the whole input
-   ([read_file]) - for every chunking - when the input does not start with a BOM and is
-   shorter than half the buffer (goawk: 64 KiB buffer, so inputs below 32 KiB; then the Scanner
+   ([read_file]) - for every chunking - when the input is shorter than half the buffer (goawk: 64 KiB buffer, so inputs below 32 KiB; then the Scanner
    neither compacts nor grows its buffer; those paths are covered by correspondence only). *)
 From Verif Require Import Lib.Base Lib.Utf8 Model.Csv Proofs.CsvBase Proofs.CsvFuel
   Proofs.CsvAccount Proofs.CsvRoundtrip Proofs.CsvChunks.
@@ -22,15 +21,16 @@ Variable c : csv_cfg.
 Hypothesis Hsep : valid_sep (c_sep c).
 Variable maxtok : Z.
 
-(* what lies behind the data does not matter to a call that strips no BOM *)
-Lemma scan_behind_irrelevant s data stale nz stale' nz' e : nobom s data -> 0 <= nz -> 0 <= nz' ->
+(* what lies behind the data does not matter to a call: "$0 is the record's own text" *)
+Lemma scan_behind_irrelevant s data stale nz stale' nz' e : 0 <= nz -> 0 <= nz' ->
   scan c s data stale nz e = scan c s data stale' nz' e.
 Proof.
-  intros Hb Hnz Hnz'. rewrite !scan_nobom by exact Hb.
-  destruct (e && (zlen data =? 0)); [reflexivity|].
-  destruct (skip_lines c e (S (length data)) data 0 0) as [| |line d adv1 skip1] eqn:Sk; try reflexivity.
+  intros Hnz Hnz'. rewrite !scan_unfold. pose proof (bdy_len s data) as [HBA HA].
+  set (B := bdy s data) in *. set (A := a0 s data) in *.
+  destruct (e && (zlen B =? 0)); [reflexivity|].
+  destruct (skip_lines c e (S (length B)) B A A) as [| |line d adv1 skip1] eqn:Sk; try reflexivity.
   pose proof (skip_acct c e _ _ _ _ _ _ _ _ Sk) as (_ & Sa & S1 & S2).
-  destruct (parse_field c e (S (length data)) line d adv1 [] false) as [|adv' fields cr|] eqn:P; try reflexivity.
+  destruct (parse_field c e (S (length B)) line d adv1 [] false) as [|adv' fields cr|] eqn:P; try reflexivity.
   destruct (proj1 (parse_acct c e Hsep _) _ _ _ _ _ _ _ _ P) as (dF & [pre Ps] & Pa).
   assert (Hle : zlen dF <= zlen d) by (rewrite Ps; zl; pose proof (zlen_nonneg pre); lia).
   pose proof (zlen_nonneg dF). pose proof (zlen_nonneg line).
@@ -40,36 +40,36 @@ Qed.
 
 (* ---- the whole-input reader, with its fuel out of the way -------------------- *)
 
-Lemma read_all_fuel : forall f f' s data, nobom s data ->
+Lemma read_all_fuel : forall f f' s data,
   (length data < f)%nat -> (length data < f')%nat -> read_all f c s data = read_all f' c s data.
 Proof.
-  induction f as [|f IH]; intros f' s data Hb Hf Hf'; [lia|]. destruct f' as [|f']; [lia|].
+  induction f as [|f IH]; intros f' s data Hf Hf'; [lia|]. destruct f' as [|f']; [lia|].
   cbn [read_all]. destruct (scan c s data [] 0 true) as [s' o] eqn:Sc.
   destruct o as [|adv names|adv tok fields| |]; try reflexivity.
-  - destruct (scan_decided_facts c s data [] 0 true s' _ Hsep Hb Sc I) as (Ha & Hnb & _).
-    cbn [out_adv] in Ha. f_equal. apply IH; [left; exact Hnb| |];
+  - destruct (scan_decided_facts c s data [] 0 true s' _ Hsep Sc I) as (Ha & Hnb & _).
+    cbn [out_adv] in Ha. f_equal. apply IH;
       rewrite length_zdrop by lia; unfold zlen in *; lia.
-  - destruct (scan_decided_facts c s data [] 0 true s' _ Hsep Hb Sc I) as (Ha & Hnb & _).
-    cbn [out_adv] in Ha. f_equal. apply IH; [left; exact Hnb| |];
+  - destruct (scan_decided_facts c s data [] 0 true s' _ Hsep Sc I) as (Ha & Hnb & _).
+    cbn [out_adv] in Ha. f_equal. apply IH;
       rewrite length_zdrop by lia; unfold zlen in *; lia.
 Qed.
 
 Definition RA (s : csv_st) (data : bytes) : list event := read_all (S (length data)) c s data.
 
-Lemma RA_unfold s data : nobom s data ->
+Lemma RA_unfold s data :
   RA s data = match scan c s data [] 0 true with
               | (s', ORecord adv tok fields) => ERecord tok fields :: RA s' (zdrop adv data)
               | (s', OHeader adv names) => EHeader names :: RA s' (zdrop adv data)
               | _ => []
               end.
 Proof.
-  intros Hb. unfold RA at 1. cbn [read_all]. destruct (scan c s data [] 0 true) as [s' o] eqn:Sc.
+  unfold RA at 1. cbn [read_all]. destruct (scan c s data [] 0 true) as [s' o] eqn:Sc.
   destruct o as [|adv names|adv tok fields| |]; try reflexivity.
-  - destruct (scan_decided_facts c s data [] 0 true s' _ Hsep Hb Sc I) as (Ha & Hnb & _).
-    cbn [out_adv] in Ha. f_equal. unfold RA. apply read_all_fuel; [left; exact Hnb| |];
+  - destruct (scan_decided_facts c s data [] 0 true s' _ Hsep Sc I) as (Ha & Hnb & _).
+    cbn [out_adv] in Ha. f_equal. unfold RA. apply read_all_fuel;
       rewrite ?length_zdrop by lia; unfold zlen in *; lia.
-  - destruct (scan_decided_facts c s data [] 0 true s' _ Hsep Hb Sc I) as (Ha & Hnb & _).
-    cbn [out_adv] in Ha. f_equal. unfold RA. apply read_all_fuel; [left; exact Hnb| |];
+  - destruct (scan_decided_facts c s data [] 0 true s' _ Hsep Sc I) as (Ha & Hnb & _).
+    cbn [out_adv] in Ha. f_equal. unfold RA. apply read_all_fuel;
       rewrite ?length_zdrop by lia; unfold zlen in *; lia.
 Qed.
 
@@ -85,14 +85,14 @@ Definition ev_of (o : scan_out) : list event :=
 
 (* a row decided by any call (before or at EOF, any buffer behind the data) is the first event
    of the whole-input reader, which then continues behind it *)
-Lemma RA_decided s pend rest stale nz e s' o : nobom s (pend ++ rest) -> 0 <= nz ->
+Lemma RA_decided s pend rest stale nz e s' o : 0 <= nz ->
   (e = true -> rest = []) ->
   scan c s pend stale nz e = (s', o) -> decided o ->
   RA s (pend ++ rest) = ev_of o ++ RA s' (zdrop (out_adv o) pend ++ rest).
 Proof.
-  intros Hb Hnz He Sc Hd. pose proof (nobom_prefix _ _ _ Hb) as Hb0.
-  destruct (scan_decided_facts c s pend stale nz e s' o Hsep Hb0 Sc Hd) as (Ha & _).
-  rewrite RA_unfold by exact Hb.
+  intros Hnz He Sc Hd.
+  destruct (scan_decided_facts c s pend stale nz e s' o Hsep Sc Hd) as (Ha & _).
+  rewrite RA_unfold.
   assert (E : scan c s (pend ++ rest) [] 0 true = (s', o)).
   { destruct e.
     - rewrite (He eq_refl), app_nil_r in *. rewrite <- Sc. apply scan_behind_irrelevant; auto; lia.
@@ -191,7 +191,6 @@ Proof. reflexivity. Qed.
 (* the hypotheses under which a scanner state is simulated by the whole-input reader *)
 Record ok (s : scanner) : Prop := {
   k_inv : sinv s;
-  k_bom : nobom (sc_split s) (whole s);
   k_row : 0 <= st_row (sc_split s);
   k_eof : sc_eof s = true -> sc_chunks s = [];
   k_prev : sc_eof s = true -> st_row (sc_split s) = 0 -> pend s <> [] ->
@@ -208,14 +207,14 @@ Proof. reflexivity. Qed.
 (* after a read (or the discovery of EOF) the state is still simulated *)
 Lemma ok_refill s st adv :
   sinv s -> sc_eof s = false -> 0 <= adv <= zlen (pend s) ->
-  nobom st (zdrop adv (pend s) ++ concat (sc_chunks s)) -> 0 <= st_row st ->
+  0 <= st_row st ->
   (sc_chunks s = [] -> st_row st = 0 -> zdrop adv (pend s) <> [] ->
    snd (scan c st (zdrop adv (pend s)) [] 0 false) = ONeed) ->
   forall s2, refill maxtok (advanced (with_split s st) adv (sc_empties s)) = Some s2 ->
   ok s2 /\ sc_split s2 = st /\ whole s2 = zdrop adv (pend s) ++ concat (sc_chunks s) /\
   (smsr s2 < smsr s)%nat.
 Proof.
-  intros Hi He Ha Hb Hr Hp s2 R.
+  intros Hi He Ha Hr Hp s2 R.
   pose proof (zlen_pend s Hi) as Hzp. destruct Hi as [H1 H2 H3].
   assert (Hi1 : sinv (advanced (with_split s st) adv (sc_empties s))).
   { constructor; scn; lia. }
@@ -234,7 +233,6 @@ Proof.
     split; [|split; [reflexivity|split]].
     + constructor; scn; try discriminate.
       * constructor; scn; rewrite ?zlen_app; lia.
-      * unfold whole, pend. scn. rewrite Hpend2, <- app_assoc. exact Hb.
       * exact Hr.
     + unfold whole, pend. scn. rewrite Hpend2, <- app_assoc. reflexivity.
     + unfold smsr, msr. unfold pend at 1. scn. rewrite Hpend2, He, Ec. cbn [concat length].
@@ -257,12 +255,12 @@ Lemma scan_call_sim : forall fuel s, ok s -> (smsr s < fuel)%nat ->
   end.
 Proof.
   induction fuel as [|f IH]; intros s Hok Hm; [lia|].
-  destruct Hok as [Hi Hb Hr Heof Hprev]. pose proof Hi as [H1 H2 H3].
+  destruct Hok as [Hi Hr Heof Hprev]. pose proof Hi as [H1 H2 H3].
   pose proof (zlen_pend s Hi) as Hzp.
   rewrite scan_call_S.
   (* reading on from a state [s1] = [s] with [adv] more bytes consumed and split state [st] *)
   assert (Hcont : forall st adv evs, sc_eof s = false -> 0 <= adv <= zlen (pend s) ->
-            nobom st (zdrop adv (pend s) ++ concat (sc_chunks s)) -> 0 <= st_row st ->
+            0 <= st_row st ->
             (sc_chunks s = [] -> st_row st = 0 -> zdrop adv (pend s) <> [] ->
              snd (scan c st (zdrop adv (pend s)) [] 0 false) = ONeed) ->
             RA (sc_split s) (whole s) = evs ++ RA st (zdrop adv (pend s) ++ concat (sc_chunks s)) ->
@@ -273,12 +271,12 @@ Proof.
             | (s', evs', RStop FEOF) => RA (sc_split s) (whole s) = evs'
             | (_, _, RStop _) => False
             end).
-  { intros st adv evs He Ha Hb1 Hr1 Hp1 HRA. unfold no_token_body.
+  { intros st adv evs He Ha Hr1 Hp1 HRA. unfold no_token_body.
     cbn [advanced with_split sc_eof]. rewrite He.
     destruct (refill maxtok (advanced (with_split s st) adv (sc_empties s))) as [s2|] eqn:R.
     2:{ assert (Hi1 : sinv (advanced (with_split s st) adv (sc_empties s))) by (constructor; scn; lia).
         rewrite (refill_simple _ Hi1) in R by exact He. discriminate. }
-    destruct (ok_refill s st adv Hi He Ha Hb1 Hr1 Hp1 s2 R) as (Hok2 & Hs2 & Hw2 & Hm2).
+    destruct (ok_refill s st adv Hi He Ha Hr1 Hp1 s2 R) as (Hok2 & Hs2 & Hw2 & Hm2).
     specialize (IH s2 Hok2 ltac:(lia)).
     destruct (scan_call c maxtok f s2) as [[s3 evs3] r3].
     rewrite Hs2, Hw2 in IH. destruct r3 as [tok fields | fin].
@@ -293,7 +291,6 @@ Proof.
       rewrite advanced_0 in Hcont.
       rewrite zdrop_0 in Hcont. apply Hcont; auto; try lia; try (intros _ _ Hne; congruence). }
   cbv zeta. rewrite data_is_pend, stale_nil by exact Hi.
-  pose proof (nobom_prefix _ _ _ Hb) as Hb0.
   assert (Hnz : 0 <= sc_cap s - zlen (sc_hw s)) by (pose proof (zlen_nonneg (concat (sc_chunks s))); lia).
   destruct (scan c (sc_split s) (pend s) [] (sc_cap s - zlen (sc_hw s)) (sc_eof s)) as [st out] eqn:Sc.
   pose proof (scan_accounting c (sc_split s) (pend s) [] _ (sc_eof s) Hsep Hnz) as Hacc. rewrite Sc in Hacc. cbn [snd] in Hacc.
@@ -301,44 +298,43 @@ Proof.
   assert (Hrest : sc_eof s = true -> concat (sc_chunks s) = []) by (intros E; rewrite (Heof E); reflexivity).
   destruct out as [|adv names|adv tok fields| |].
   - (* need more data *)
-    pose proof (scan_need_state _ _ _ _ _ _ _ Hb0 Sc) as ->.
+    pose proof (scan_need_state _ _ _ _ _ _ _ Sc) as ->.
     destruct (sc_eof s) eqn:He.
     + unfold no_token_body. cbn [with_split sc_eof]. rewrite He.
-      unfold whole. rewrite (Hrest eq_refl), app_nil_r. rewrite RA_unfold by exact Hb0.
-      rewrite (scan_behind_irrelevant _ _ [] 0 [] (sc_cap s - zlen (sc_hw s)) true Hb0 ltac:(lia) Hnz), Sc. reflexivity.
+      unfold whole. rewrite (Hrest eq_refl), app_nil_r. rewrite RA_unfold.
+      rewrite (scan_behind_irrelevant _ _ [] 0 [] (sc_cap s - zlen (sc_hw s)) true ltac:(lia) Hnz), Sc. reflexivity.
     + specialize (Hcont (sc_split s) 0 [] eq_refl ltac:(lia)).
       rewrite advanced_0 in Hcont. rewrite with_split_same.
       rewrite zdrop_0 in Hcont. apply Hcont; auto.
-      intros _ _ _. rewrite (scan_behind_irrelevant _ _ [] 0 [] (sc_cap s - zlen (sc_hw s)) false Hb0 ltac:(lia) Hnz), Sc.
+      intros _ _ _. rewrite (scan_behind_irrelevant _ _ [] 0 [] (sc_cap s - zlen (sc_hw s)) false ltac:(lia) Hnz), Sc.
       reflexivity.
   - (* header row *)
-    destruct (scan_decided_facts c _ _ _ _ _ st _ Hsep Hb0 Sc I) as (Ha & Hnb & Hrow & Hh & _).
+    destruct (scan_decided_facts c _ _ _ _ _ st _ Hsep Sc I) as (Ha & Hnb & Hrow & Hh & _).
     cbn [out_adv] in Ha. destruct (Hh I) as [Hr0 _].
     cbn [with_split sc_end sc_start sc_empties].
     replace ((adv <? 0) || (sc_end s - sc_start s <? adv)) with false by lia.
-    pose proof (RA_decided (sc_split s) (pend s) (concat (sc_chunks s)) [] _ (sc_eof s) st _ Hb Hnz Hrest Sc I) as HRA.
+    pose proof (RA_decided (sc_split s) (pend s) (concat (sc_chunks s)) [] _ (sc_eof s) st _ Hnz Hrest Sc I) as HRA.
     cbn [ev_of out_adv] in HRA.
     destruct (sc_eof s) eqn:He.
     + (* decided only at EOF: it reaches the end of the input *)
       unfold no_token_body. cbn [advanced with_split sc_eof]. rewrite He.
       assert (Hne : pend s <> []) by (intros E; rewrite E in Ha; cbn in Ha; lia).
-      pose proof (scan_eof_all c Hsep (sc_split s) (pend s) [] 0 [] _ st _ Hb0 (Hprev eq_refl Hr0 Hne) Sc I) as Hall.
+      pose proof (scan_eof_all c Hsep (sc_split s) (pend s) [] 0 [] _ st _ (Hprev eq_refl Hr0 Hne) Sc I) as Hall.
       cbn [out_adv] in Hall. fold (whole s) in HRA. rewrite HRA, (Hrest eq_refl), app_nil_r.
       rewrite Hall, zdrop_all by lia. rewrite RA_nil. reflexivity.
-    + apply Hcont; auto; try lia; try (left; exact Hnb); try (intros _ Hr1; lia).
+    + apply Hcont; auto; try lia; try (intros _ Hr1; lia).
   - (* record *)
-    destruct (scan_decided_facts c _ _ _ _ _ st _ Hsep Hb0 Sc I) as (Ha & Hnb & Hrow & _ & _).
+    destruct (scan_decided_facts c _ _ _ _ _ st _ Hsep Sc I) as (Ha & Hnb & Hrow & _ & _).
     cbn [out_adv] in Ha. cbn [with_split sc_end sc_start sc_empties sc_eof].
     replace ((adv <? 0) || (sc_end s - sc_start s <? adv)) with false by lia.
     replace (negb (sc_eof s) || (0 <? adv)) with true by lia. cbn [Z.ltb Z.compare].
-    pose proof (RA_decided (sc_split s) (pend s) (concat (sc_chunks s)) [] _ (sc_eof s) st _ Hb Hnz Hrest Sc I) as HRA.
+    pose proof (RA_decided (sc_split s) (pend s) (concat (sc_chunks s)) [] _ (sc_eof s) st _ Hnz Hrest Sc I) as HRA.
     cbn [ev_of out_adv] in HRA.
     assert (Hpend' : pend (advanced (with_split s st) adv 0) = zdrop adv (pend s))
       by (unfold pend; cbn; rewrite zdrop_zdrop by lia; reflexivity).
     split; [|split; [|split]].
     + constructor; cbn [advanced with_split sc_split sc_eof sc_chunks].
       * constructor; scn; lia.
-      * unfold whole. rewrite Hpend'. left. exact Hnb.
       * lia.
       * exact Heof.
       * intros _ E. lia.
@@ -346,7 +342,7 @@ Proof.
     + unfold smsr. rewrite Hpend'. cbn [advanced with_split sc_chunks sc_eof]. unfold msr.
       rewrite length_zdrop by lia. unfold zlen in *. lia.
     + cbn [app]. unfold whole at 2. rewrite Hpend'. exact HRA.
-  - destruct Hacc as [Hx Hy]. destruct Hb0 as [Hz | Hz]; congruence.
+  - contradiction.
   - congruence.
 Qed.
 
@@ -366,25 +362,23 @@ Ltac scn := cbn [init_scanner sc_hw sc_cap sc_start sc_end sc_eof sc_empties sc_
 
 (* The buffer-level Scanner model = the whole-input reader, for every chunking. *)
 Theorem read_csv_is_read_file c cap maxtok chunks :
-  valid_sep (c_sep c) -> prefix_of bom (concat chunks) = false ->
-  2 * zlen (concat chunks) < cap ->
+  valid_sep (c_sep c) -> 2 * zlen (concat chunks) < cap ->
   read_csv c cap maxtok chunks = (read_file c (concat chunks), FEOF).
 Proof.
-  intros Hv Hb Hc. unfold read_csv.
+  intros Hv Hc. unfold read_csv.
   rewrite (run_scanner_sim c Hv maxtok).
   - reflexivity.
   - constructor; scn; try discriminate; try lia.
-    + constructor; unfold init_scanner; scn; try reflexivity; try lia. change (zlen (@nil Z)) with 0. lia.
-    + right. exact Hb.
+    constructor; unfold init_scanner; scn; try reflexivity; try lia. change (zlen (@nil Z)) with 0. lia.
   - unfold smsr, msr, run_fuel, total_len, pend, init_scanner. scn. change (length (zdrop 0 (@nil Z))) with 0%nat. lia.
 Qed.
 
 (* chunk independence of the buffer-level reader *)
 Corollary read_csv_chunk_independent c cap maxtok chunks :
-  valid_sep (c_sep c) -> prefix_of bom (concat chunks) = false -> 2 * zlen (concat chunks) < cap ->
+  valid_sep (c_sep c) -> 2 * zlen (concat chunks) < cap ->
   read_csv c cap maxtok chunks = read_csv c cap maxtok [concat chunks].
 Proof.
-  intros Hv Hb Hc. rewrite (read_csv_is_read_file c cap maxtok chunks) by assumption.
+  intros Hv Hc. rewrite (read_csv_is_read_file c cap maxtok chunks) by assumption.
   rewrite (read_csv_is_read_file c cap maxtok [concat chunks]); cbn [concat]; rewrite ?app_nil_r; auto.
 Qed.
 
